@@ -84,6 +84,7 @@ type FragSpec struct {
 	Off, Len int
 	Total    int
 	Data     []byte
+	SeqOff   int // added to the message's message_seq (fragments of messages that do not exist)
 }
 
 // AlertError is returned when the other side sent an alert.
@@ -336,7 +337,8 @@ func (p *Peer) SendMsg(typ byte, body []byte, skipTranscript bool) error {
 				h := make([]byte, 12, 12+len(data))
 				h[0] = typ
 				h[1], h[2], h[3] = byte(total>>16), byte(total>>8), byte(total)
-				h[4], h[5] = byte(m.Seq>>8), byte(m.Seq)
+				fs := m.Seq + uint16(f.SeqOff)
+				h[4], h[5] = byte(fs>>8), byte(fs)
 				h[6], h[7], h[8] = byte(f.Off>>16), byte(f.Off>>8), byte(f.Off)
 				h[9], h[10], h[11] = byte(len(data)>>16), byte(len(data)>>8), byte(len(data))
 				if err := p.WriteRecord(ref.RecHandshake, append(h, data...)); err != nil {
